@@ -63,6 +63,7 @@ let print_obs o =
   | OStep k -> Printf.printf "STEP %d\n" (n k)
   | OEv e -> print_ev e
   | ORes r -> Printf.printf "RES %d\n" (i r)
+  | OIter r -> Printf.printf "ITER %s\n" (zs r)
   | OCmp r -> Printf.printf "CMP %s\n" (String.concat " " (List.map (fun b -> if b then "1" else "0") r))
   | ONull (s, sz) -> Printf.printf "NULL %d %d\n" (n s) (i sz)
   | OGone s -> Printf.printf "GONE %d\n" (n s)
@@ -107,6 +108,11 @@ let parse_op params toks =
   | "moveassign" :: [d; s] -> OpMoveAssign (nat d, nat s)
   | "swap" :: [a; b] -> OpSwap (nat a, nat b)
   | "junk" :: [b] -> OpJunk (z b)
+  | "refassign" :: [d; i; s; j; form] -> OpRefAssign (nat d, z i, nat s, z j, form = "2")
+  | "refswap" :: [a; i; b; j; _] -> OpRefSwap (nat a, z i, nat b, z j)
+  | "write" :: s :: i :: k :: o :: _ :: bs -> OpWrite (nat s, z i, nat k, z o, List.map z bs)
+  | "algo" :: [kind; s; a; b; c; s2] -> OpAlgo (nat kind, nat s, z a, z b, z c, nat s2)
+  | "iter" :: [s; i; j] -> OpIter (nat s, z i, z j)
   | "cmpvec" :: [a; b] -> OpCmpVec (nat a, nat b)
   | "cmpref" :: [a; i; b; j] -> OpCmpRef (nat a, z i, nat b, z j)
   | "observe" :: [s] -> OpObserve (nat s)
